@@ -294,7 +294,13 @@ pub fn cmd_sweep(args: &[String]) -> i32 {
                             bump(&mut counters, "with_leap_seconds");
                         }
                     }
-                    Ok(Err(e)) => found.push(Found { oracle: "C08.reference_decoder".into(), sig: "iana-file-refused".into(), detail: format!("{label}: well-formed file refused: {e:?}"), scenario: scenario_for(content.clone(), None, &prop) }),
+                    Ok(Err(e)) => {
+                        // (the executor names the refusal of a generated file C08.fidelity)
+                        let (o, sg) = if matches!(content, Content::Gen(_)) { ("C08.fidelity", "well-formed-refused") } else { ("C08.reference_decoder", "iana-file-refused") };
+                        if found.iter().filter(|f| f.sig == sg).count() < 3 {
+                            found.push(Found { oracle: o.into(), sig: sg.into(), detail: format!("{label}: well-formed file refused: {e:?}"), scenario: scenario_for(content.clone(), None, &prop) })
+                        }
+                    }
                     Err(p) => found.push(Found { oracle: "C07.panic".into(), sig: "panic".into(), detail: format!("{label}: panicked: {p}"), scenario: scenario_for(content.clone(), None, &prop) }),
                 }
                 if samples.len() < 3 {
